@@ -428,6 +428,7 @@ impl AdjacencyList {
     @after `let order = self.order();`
         proof {
             assert(order * (order - 1) == order * order - order) by (nonlinear_arith) requires order >= 1;
+            assert((order - 1) * order == order * (order - 1)) by (nonlinear_arith) requires order >= 1;  // robust against commuted operands
             assert(order * (order - 1) <= usize::MAX) by (nonlinear_arith) requires 1 <= order <= 0x1_0000_0000;
             lemma_pair_count(*self);
             lemma_tournament_rows(*self);
